@@ -261,6 +261,17 @@ func (fr *Frame) applyContract(st *State, site ssa.Instruction, c *Contract, fn 
 					}
 				}
 			}
+			if c.Options["fresh-results"] != "" {
+				// "option fresh-results": a pointer result that is not one of the parameters is nil or a newly
+				// allocated object (checked on the callee's side by its own clauses about the result)
+				v.fresh++
+				pt := t.Underlying().(*types.Pointer)
+				o := v.newObject(fmt.Sprintf("r!%s!%d_%d", fn.Name(), v.fresh, i), pt.Elem(), false)
+				v.symDepth++
+				st.mem[o] = v.symValue(fmt.Sprintf("r!%s!%d_%d^", fn.Name(), v.fresh, i), pt.Elem(), false)
+				v.symDepth--
+				return &IteV{C: F.Fresh("isnil!r!"+fn.Name(), SBool), A: &PtrV{}, B: &PtrV{Obj: o}}
+			}
 			unsup("contract of %s: pointer result without 'ensures result == <param>'", fn.Name())
 		}
 		if _, isIface := t.Underlying().(*types.Interface); isIface {
@@ -823,6 +834,15 @@ func (fr *Frame) invokeAbstract(st *State, site ssa.Instruction, iv *IfaceV, cc 
 		return r
 	}
 	if r, ok := fr.ifaceContract(st, site, iv, cc, args); ok {
+		if fr.top {
+			// interface calls with an assumed contract are visible to cut anchors like any other call
+			for i, a := range args {
+				st.srcVar[fmt.Sprintf("callarg%d", i+1)] = a
+				st.srcAdr[fmt.Sprintf("callarg%d", i+1)] = false
+			}
+			fr.bindCallResult(st, r)
+			fr.anchor(st, "call", cc.Method.Name(), -1)
+		}
 		return r
 	}
 	if fr.v.opaqueCalls {
